@@ -129,6 +129,17 @@ def check_conflict(case, ctx: Ctx) -> None:
     except InconsistentGradingsError:
         if os.path.exists(path):
             raise Violation("file-left-behind", "write raised but left a file", **facts_of(case)) from None
+        # asking again (e.g. with a debug file, to look at the blocking) must not produce the refused dictionary
+        try:
+            built.mesh.write(path, path + ".vtk")
+        except InconsistentGradingsError:
+            pass
+        except Exception as ex:
+            raise Violation("conflict-wrong-error", f"second write of a refused model raised {type(ex).__name__}: {ex}",
+                            error=type(ex).__name__, **facts_of(case)) from None
+        else:
+            raise Violation("conflict-written", "a model refused by write() was written by the next write()",
+                            second_write=True, **facts_of(case))
         ctx.nt(True)
         ctx.label(*lt.contact_labels(case))
         ctx.label("conflict-adjacent" if _adjacent(case) else "conflict-through-others")
@@ -183,6 +194,25 @@ _SURROUNDED = [
     for order in ([0, 1, 2], [0, 2, 1], [1, 0, 2], [1, 2, 0], [2, 0, 1], [2, 1, 0])
 ]
 
+# A block B without any chop of its own, squeezed in x between A (z count 5) and C (z count 15) that do not touch each
+# other; B's x count comes from E stacked on top of it (E's own z edges belong to another family), its y count from A.
+# Six insertion orders of the four blocks, four numberings of B.
+_SQUEEZED = [
+    {
+        "dims": [3, 1, 2], "widths": [[1.0, 1.0, 1.0], [1.0], [1.0, 1.0]], "jitter": [], "cells": list(order),
+        "orient": [rot if c == 1 else 0 for c in order], "mode": "conflict",
+        "conflict": {"family": 0, "first": [0, 2], "second": [2, 2]},
+        "chops": [
+            {"cell": 0, "gdir": 2, "args": {"count": 5}}, {"cell": 2, "gdir": 2, "args": {"count": 15}},
+            {"cell": 4, "gdir": 0, "args": {"count": 2}}, {"cell": 0, "gdir": 1, "args": {"count": 3}},
+            {"cell": 4, "gdir": 2, "args": {"count": 4}}, {"cell": 0, "gdir": 0, "args": {"count": 2}},
+            {"cell": 2, "gdir": 0, "args": {"count": 2}},
+        ],
+    }
+    for order in ([0, 2, 1, 4], [1, 0, 2, 4], [4, 1, 2, 0], [2, 4, 0, 1], [0, 1, 4, 2], [1, 4, 0, 2])
+    for rot in (0, 7, 13, 22)
+]
+
 CELLS = [
     Cell("C01/success/wellposed", with_history(lt.chopped_lattice("wellposed")), check_success, 150, 8000,
          "one count chop (1-in-5 multi-section) per edge family, written once / twice / after an explicit grade(); counts "
@@ -193,5 +223,5 @@ CELLS = [
          "graded chops (sizes, ratios, preserve modes) on jittered lattices"),
     Cell("C01/conflict", lt.chopped_lattice("conflict").filter(lambda c: c is not None), check_conflict, 200, 10000,
          "two count chops with different totals in one family: InconsistentGradingsError and no file",
-         fixed_cases=_UNEVEN + _SURROUNDED),
+         fixed_cases=_UNEVEN + _SURROUNDED + _SQUEEZED),
 ]
